@@ -190,9 +190,6 @@ func newHist(id string, rng *rand.Rand, l *clog, thorough bool, genesisOnly bool
 				l.write(rec{T: "res", C: id, S: "genesis", O: "gate-panicked", EK: ek})
 			case verr != nil:
 				l.count("genesis/gate-refused", 1)
-				if os.Getenv("C15_DEBUG") != "" {
-					l.count("genesis/why/"+msgClass(verr.Error()), 1)
-				}
 				l.write(rec{T: "res", C: id, S: "genesis", O: "gate-refused", EK: ek})
 			default:
 				plan = pl
